@@ -210,8 +210,10 @@ func main() {
 	}
 	if *workers <= 0 {
 		*workers = runtime.NumCPU()
-		if *workers > 16 {
-			*workers = 16
+		// The sandbox VM advertises 16 CPUs but delivers the throughput of 2-4; beyond 8
+		// worker processes the batch gets slower, not faster (measured).
+		if *workers > 8 {
+			*workers = 8
 		}
 	}
 	master := uint64(20260921)
